@@ -142,6 +142,14 @@ def syntactic(E):
     E.syntactic_obligation("writeXMLReports replaces characters XML cannot represent in every attribute and text (xml_safe over the whole tree)",
                            'for node in testSuiteNode.iter():' in src and 'xml_safe(v)' in src and 'xml_safe(node.text)' in src,
                            props=('C17',))
+    calls = [n for n in ast.walk(w) if isinstance(n, ast.Call)]
+    tostr = [c for c in calls if ast.unparse(c.func) == 'ElementTree.tostring']
+    ascii_only = bool(tostr) and all(not [k for k in c.keywords if k.arg == 'encoding'] for c in tostr)
+    opens = [c for c in calls if ast.unparse(c.func) == 'open' or ast.unparse(c.func).endswith('.open')]
+    explicit = bool(opens) and all(any(k.arg == 'encoding' for k in c.keywords) for c in opens)
+    E.syntactic_obligation("the report text can be written under every locale: it is serialised ASCII-only (ElementTree.tostring "
+                           "default, character references) or the file is opened with an explicit encoding",
+                           ascii_only or explicit, props=('C17',))
     for m in ('test_success', 'test_failure', 'test_error'):
         f, _, s2 = E.find_def('formatter.XMLOutputFormattingWrapper.' + m)
         E.syntactic_obligation("XMLOutputFormattingWrapper.%s records the result exactly once" % m, s2.count('self._record(') == 1,
